@@ -2,6 +2,7 @@
 # Usage: ./run.sh C18 quick|thorough            (env VERIF_SEED, VERIF_TIER honoured)
 #        ./run.sh C18 --replay <file>
 #        ./run.sh setup
+#        ./run.sh selftest                      (harness unit tests)
 # exit 0 = property held on everything explored; 1 = "VIOLATION property=C18 replay=<file>";
 # 2 = harness error (build failure, seams not exercised, determinism self-check failed).
 set -u
@@ -30,6 +31,11 @@ case "${1:-}" in
   setup)
     build
     echo "setup ok"
+    ;;
+  selftest)
+    # unit tests of the simulator's own seam semantics (timed waits, deadlock, exit freeze,
+    # short writes, formatter stub, replay-plan routing, covering family)
+    (cd "$GENSIM" && cargo test --release --offline --quiet) || exit 2
     ;;
   C18)
     shift
